@@ -28,7 +28,9 @@ def classify(a, b):
         return 'K_b_dots'
     if any(s == b'' for s in sa[:-1]) or any(s == b'' for s in sb[:-1]):
         return 'K_inner_empty'
-    NA = norm(True, sa); NB = norm(True, sb)
+    # the code strips the common prefix by comparing segments AFTER percent-decoding (strip_common), so the two classes below
+    # are stated on decoded segments: `.%2E` and `%2E%2E` are the same segment there
+    NA = [spec.dec(x) for x in norm(True, sa)]; NB = [spec.dec(x) for x in norm(True, sb)]
     if A[3] is None and B[3] is not None and NA == NB:
         return 'K_query_inherit'
     Bd = NB[:-1] if NB else []
@@ -49,7 +51,7 @@ def main():
     cdir, harness, model = st
     known_listed = {k['id']: k for k in known_findings('C15')}
     cases = []
-    SEG = ['a', 'b', 'c', 'index.html', 'x:y', '12:30', '%41:b', '_b:x', 'é']
+    SEG = ['a', 'b', 'c', 'index.html', 'x:y', '12:30', '%41:b', '_b:x', '%2E%2E', '%2e', '.%2E', 'é']   # percent-encoded dots are ordinary segments
     n = 100000 if thorough else 4000
     for fam in ('uri', 'iri'):
         g = Gen(random.Random(rnd.random()), fam)
@@ -61,13 +63,13 @@ def main():
                 if k < 0.12:
                     segl = [g.pick(SEG + ['', '.', '..']) for _ in range(g.pick([0, 1, 2, 3]))]
                 else:
-                    segl = shared + [g.pick(SEG[:8] if fam == 'uri' else SEG) for _ in range(g.pick([0, 0, 1, 1, 2, 3]))]
+                    segl = shared + [g.pick(SEG[:11] if fam == 'uri' else SEG) for _ in range(g.pick([0, 0, 1, 1, 2, 3]))]
                     if g.r.random() < 0.3: segl = segl + ['']
                 p = '/' + '/'.join(segl) if (au is not None or g.r.random() < 0.85) else '/'.join(segl)
                 if au is None and p.startswith('//'): p = '/x' + p[1:]
                 if g.r.random() < 0.06: p = ''
                 if au is None and p == '' : p = '/'
-                q = g.pick([None, None, 'q', '']) ; f = g.pick([None, None, 'f'])
+                q = g.pick([None, None, 'q', '', 'a:b', 'x=1:2/3?4']) ; f = g.pick([None, None, 'f', 'sec:1', 'a/b:c?d'])   # delimiters that are legal inside query / fragment
                 return {'scheme': sch if g.r.random() < 0.95 else 'other', 'authority': au if g.r.random() < 0.92 else g.pick([None, 'k']), 'path': p, 'query': q, 'fragment': f}
             shared = [g.pick(SEG[:3]) for _ in range(g.pick([0, 1, 2, 3]))]
             pa, pb = mk(shared), mk(shared)
